@@ -32,7 +32,19 @@ Example C12_nonvacuous :
   action_ids (mkRaw [0%Z] [] (0%Q, 0%Q) (0%Q, 0%Q) [] []) consumed_reset None ab = [1; 2; 3; 4; 5; 6]%Z.
 Proof. split; reflexivity. Qed.
 
+(* ---- the executable judgement the correspondence check evaluates on implementation traces (coq/Check) is sound for the
+   model on EVERY scenario of the profile, and transfers to every trace that agrees with the model's run ---- *)
+From BEI Require Check.C12c Proofs.JudgeC12P.
+Theorem C12_app_judgement_sound : forall sc, JudgeC12P.profile_C12b sc = true -> C12c.ok (sc, App.trace (App.run sc)) = 0%Z.
+Proof. exact JudgeC12P.C12_judgement_sound. Qed.
+
+Theorem C12_app_judgement_transfer : forall sc t, JudgeC12P.profile_C12b sc = true -> JudgeC12P.one_op_frames sc = true -> App.agree_full (sc, t) = true -> C12c.ok (sc, t) = 0%Z.
+Proof. exact JudgeC12P.C12_judgement_transfer. Qed.
+
+
 Print Assumptions C12_modifiers_all_in_order.
 Print Assumptions C12_conditions_all_in_order.
 Print Assumptions C12_action_invocations.
 Print Assumptions C12_frame_invocation_log.
+Print Assumptions C12_app_judgement_sound.
+Print Assumptions C12_app_judgement_transfer.
